@@ -255,6 +255,13 @@ def _is_bytes_const_compare(t):
     return None
 
 
+class _ValueAsTest:
+    """a returned verdict expression presented like a test node (.ast is the expression)"""
+
+    def __init__(self, expr, node):
+        self.ast, self.id, self.lineno = expr, node.id, node.lineno
+
+
 def c07_5(ctx):
     """truth tests go through the numeric zero test"""
     out = []
@@ -271,6 +278,15 @@ def c07_5(ctx):
         txt = ast.unparse(ex)
         if "stack.pop()" in txt or "stack[-1]" in txt:
             finals.append((n, ex))
+    for n in cfg.returns():
+        # `return <verdict computed from the top element>` is the same decision written as a value
+        if n.loops or n.ast is None or n.ast.value is None or isinstance(n.ast.value, ast.Constant):
+            continue
+        v = n.ast.value
+        ex = expand(fn, n.id, v, stop={"stack"})
+        txt = ast.unparse(ex)
+        if "stack.pop()" in txt or "stack[-1]" in txt:
+            finals.append((_ValueAsTest(v, n), ex))
     if not finals:
         raise AnalysisError("Script.evaluate: final truth test of the top stack element not found")
     for n, ex in finals:
@@ -506,9 +522,17 @@ def c07_8(ctx):
                 and isinstance(st.test.left, ast.Name) and st.test.left.id == "command":
             codes = f.fold(st.test.comparators[0])
             calls = [c for c in ast.walk(ast.Module(body=st.body, type_ignores=[])) if isinstance(c, ast.Call) and isinstance(c.func, ast.Name) and c.func.id == "operation"]
-            if isinstance(codes, (tuple, list)) and calls:
+            if isinstance(codes, (tuple, list)) and calls and not any(isinstance(a, ast.Starred) for a in calls[0].args):
                 for c in codes:
                     groups[c] = len(calls[0].args)
+            elif isinstance(codes, (tuple, list)):
+                # `args = (stack, commands)` per group, one `operation(*args)` after the chain
+                tup = [a.value for a in st.body if isinstance(a, ast.Assign) and len(a.targets) == 1 and isinstance(a.targets[0], ast.Name) and isinstance(a.value, ast.Tuple)]
+                star = [c for c in ast.walk(fn) if isinstance(c, ast.Call) and isinstance(c.func, ast.Name) and c.func.id == "operation" and len(c.args) == 1
+                        and isinstance(c.args[0], ast.Starred) and isinstance(c.args[0].value, ast.Name)]
+                if len(tup) == 1 and star:
+                    for c in codes:
+                        groups[c] = len(tup[0].elts)
     if not groups:
         raise AnalysisError("evaluate: opcode argument groups not found")
     out = []
@@ -591,18 +615,28 @@ def c07_9(ctx):
         return None
     g(m_type, "height/time type mismatch fails", "cltv-type")
 
+    def _cltv_rel(node):
+        """relation symbol of `<transaction locktime> ? <operand>` read from a comparison in either orientation, or None"""
+        def is_tx(e):
+            o = origins(fn, node.id, e)
+            return "attrname:locktime" in o and "call:decode_num" not in o
+
+        def is_op(e):
+            return "call:decode_num" in origins(fn, node.id, e)
+        return rl.rel(node.ast, is_tx, is_op)
+
     def m_lt(node, ex, atoms):
-        t = node.ast
-        if isinstance(t, ast.Compare) and len(t.ops) == 1 and isinstance(t.ops[0], (ast.Lt, ast.Gt)):
-            lo, ro = origins(fn, node.id, t.left), origins(fn, node.id, t.comparators[0])
-            l_tx = "attrname:locktime" in lo and "call:decode_num" not in lo
-            r_tx = "attrname:locktime" in ro and "call:decode_num" not in ro
-            l_op, r_op = "call:decode_num" in lo, "call:decode_num" in ro
-            if isinstance(t.ops[0], ast.Lt) and l_tx and r_op:
-                return BAD_TRUE
-            if isinstance(t.ops[0], ast.Gt) and l_op and r_tx:
-                return BAD_TRUE
+        r = _cltv_rel(node)
+        if r == "<":
+            return BAD_TRUE   # locktime < operand: not yet reached, must fail
+        if r == ">=":
+            return BAD_FALSE
         return None
+    wrong_rel = [(n, _cltv_rel(n)) for n in cfg_of(fn).tests() if _cltv_rel(n) in ("<=", ">", "==", "!=")]
+    if wrong_rel:
+        n0, r0 = wrong_rel[0]
+        out.append(ctx.bad(spec, "`%s` relates the transaction locktime and the operand by `%s`; BIP65 fails exactly when locktime < operand (an operand equal to the "
+                                 "locktime is satisfied)" % (ast.unparse(n0.ast), r0), n0.ast, mod, key="cltv-compare-relation"))
     g(m_lt, "operand greater than the transaction locktime fails", "cltv-compare")
     # order: the type test dominates the comparison (otherwise Locktime.__lt__ raises instead of failing)
     cfg = cfg_of(fn)
@@ -714,15 +748,28 @@ def c07_10(ctx):
             return BAD_FALSE
         return None
 
-    def m_lt(node, ex, atoms):
+    def _csv_rel(node):
+        """relation symbol of `<input sequence> ? <operand>` read from a comparison in either orientation, or None"""
+        def is_seq(e):
+            o = origins(fn, node.id, e)
+            return "attrname:sequence" in o and "call:decode_num" not in o
         t = node.ast
-        if isinstance(t, ast.Compare) and len(t.ops) == 1 and isinstance(t.ops[0], (ast.Lt, ast.Gt)):
-            l_op, r_op = is_operand(t.left, node.id), is_operand(t.comparators[0], node.id)
-            if isinstance(t.ops[0], ast.Lt) and r_op and not l_op:
-                return BAD_TRUE
-            if isinstance(t.ops[0], ast.Gt) and l_op and not r_op:
-                return BAD_TRUE
+        if isinstance(t, ast.Compare) and len(t.ops) == 1 and any(isinstance(x, ast.Constant) for x in (t.left, t.comparators[0])):
+            return None
+        return rl.rel(t, is_seq, lambda e: is_operand(e, node.id))
+
+    def m_lt(node, ex, atoms):
+        r = _csv_rel(node)
+        if r == "<":
+            return BAD_TRUE
+        if r == ">=":
+            return BAD_FALSE
         return None
+    wrong_rel = [(n, _csv_rel(n)) for n in cfg.tests() if _csv_rel(n) in ("<=", ">", "==", "!=")]
+    if wrong_rel:
+        n0, r0 = wrong_rel[0]
+        out.append(ctx.bad(spec, "`%s` relates the input sequence and the operand by `%s`; BIP112 fails exactly when the input's sequence < operand" % (ast.unparse(n0.ast), r0),
+                           n0.ast, mod, key="csv-compare-relation"))
     g(m_empty, "empty stack fails", "csv-empty")
     g(m_neg, "negative operand fails", "csv-negative")
     g(m_version, "transaction version < 2 fails", "csv-version")
